@@ -731,6 +731,68 @@ Proof.
   apply b64_loop_safe; lia.
 Qed.
 
+(* encrypted-PEM headers *)
+Lemma hex_to_bin_spec n : forall buf limit p acc,
+  holds buf limit -> p + 2 * N.of_nat n <= limit ->
+  post (fun r => match r with Some b => lenN b = lenN acc + N.of_nat n | None => True end)
+       (hex_to_bin n buf limit p acc).
+Proof.
+  induction n as [|k IH]; intros buf limit p acc Hh Hp; cbn [hex_to_bin].
+  - cbn. unfold lenN. rewrite rev_length. lia.
+  - pstep. pstep; [lia|].
+    destruct (hex_digit b) as [hv|]; [|cbn; exact I].
+    pstep. pstep; [lia|].
+    destruct (hex_digit b0) as [lv|]; [|cbn; exact I].
+    eapply post_weaken; [apply IH; auto; lia|].
+    intros [bb|]; auto. unfold lenN. cbn [length]. lia.
+Qed.
+
+Definition pempw_post (r : N * bytes * bytes) : Prop :=
+  let '(k, iv, out) := r in
+  (k = 0 /\ iv = []) \/ (k = 1 /\ lenN iv = 8 /\ lenN out mod 8 = 0) \/ (k = 2 /\ lenN iv = 16 /\ lenN out mod 16 = 0).
+
+Theorem pem_decode_pw_spec haspw buf limit :
+  holds buf limit -> post pempw_post (pem_decode_pw haspw buf limit).
+Proof.
+  intros Hh. unfold pem_decode_pw.
+  pstep. eapply post_weaken; [apply pem_check_ok_spec; auto|].
+  intros [[start0 endp]|] Hc; [|pstep].
+  cbn in Hc.
+  pstep. eapply post_weaken; [apply pem_strnstr_spec; auto|]. intros p1 _.
+  pstep.
+  apply post_weaken with (Q := fun _ : bool => True).
+  { destruct p1; [|pstep; auto].
+    pstep. eapply post_weaken; [apply pem_strnstr_spec; auto|]. intros p2 _. pstep. auto. }
+  intros enc _. pstep.
+  - pose proof (mod16_le (endp - start0)).
+    pstep. pstep; [lia|].
+    pstep. eapply post_weaken; [apply b64_loop_safe; lia|]. intros out _.
+    pstep. unfold pempw_post. left. auto.
+  - pstep; [pstep|].
+    pstep. eapply post_weaken; [apply pem_strnstr_spec; auto|]. intros d Hd.
+    pstep.
+    apply post_weaken with (Q := fun h : option (N * N * N) =>
+       match h with Some (k, s, ivl) => (k = 1 /\ ivl = 8) \/ (k = 2 /\ ivl = 16) | None => True end).
+    { destruct d as [q|].
+      - pstep. left. auto.
+      - pstep. eapply post_weaken; [apply pem_strnstr_spec; auto|]. intros [q|] _; pstep; auto. }
+    intros [[[kind s] ivlen]|] Hk; [|pstep].
+    pstep; [pstep|]. b2p.
+    pstep.
+    apply post_weaken with (Q := fun r : option bytes => match r with Some b => lenN b = ivlen | None => True end).
+    { eapply post_weaken; [apply hex_to_bin_spec; auto|].
+      - rewrite N2Nat.id. lia.
+      - intros [bb|]; auto. cbv beta. rewrite N2Nat.id. change (lenN []) with 0. lia. }
+    intros [ivb|] Hiv; [|pstep].
+    pstep; [pstep|]. b2p.
+    pose proof (mod16_le (endp - (s + 2 * ivlen))).
+    pstep. pstep; [lia|].
+    pstep. eapply post_weaken; [apply b64_loop_safe; lia|]. intros out _.
+    pstep; [pstep|]. b2p.
+    pstep. unfold pempw_post. right.
+    destruct Hk as [[-> ->]|[-> ->]]; [left|right]; auto.
+Qed.
+
 Lemma pem_list_loop_spec fuel : forall buf limit pos acc,
   holds buf limit -> (N.to_nat (limit - pos) < fuel)%nat ->
   post (fun _ => True) (pem_list_loop fuel buf limit pos acc).
@@ -1123,3 +1185,14 @@ Qed.
 Example ex_oidcopy : asnCopyOid [85; 29; 17] 3 0 3 = Ok (4, [6; 3; 85; 29; 17]) /\
                      asnCopyOid (repeat 3 (N.to_nat 260)) 260 0 260 = Ok (0, [0; 0]).
 Proof. split; vm_compute; reflexivity. Qed.
+
+Lemma p09_pem_encrypted_no_fault : forall haspw buf limit,
+  holds buf limit ->
+  safe (pem_decode_pw haspw buf limit) /\
+  (forall k iv out, pem_decode_pw haspw buf limit = Ok (k, iv, out) ->
+     (k = 0 /\ iv = []) \/ (k = 1 /\ lenN iv = 8 /\ lenN out mod 8 = 0) \/ (k = 2 /\ lenN iv = 16 /\ lenN out mod 16 = 0)).
+Proof.
+  intros haspw buf limit H.
+  pose proof (pem_decode_pw_spec haspw buf limit H) as P.
+  split; [eapply post_safe; exact P|]. intros k iv out E. rewrite E in P. exact P.
+Qed.
